@@ -363,9 +363,10 @@ func judgeTicker(c *vkit.Case, res *tickerResult, group string) bool {
 	}
 	if res.pan != nil {
 		if res.panWhere == "Stop()" {
-			// Not demanded by the statement; recorded only.
-			r.Count("outside the statement / lenient (not judged)", "first Stop panicked: "+res.pan.Msg, 1)
-			return false
+			w := res.witness()
+			w["panic"] = res.pan.Msg
+			c.Violation("stop-panics", "Stop() panicked: "+res.pan.Msg, w)
+			return true
 		}
 		r.Eval(1)
 		w := res.witness()
